@@ -62,6 +62,24 @@ theorem batch_index_map (xs : List α) (D d : Nat) (hD : 1 ≤ D) (hdvd : D ∣ 
   rw [batch_eq_chunks xs D b hD hb hl, hq]
   exact chunks_getD b D xs d hd
 
+/-- The placement map the driver reports (`placeOf`): padded position `i` is computed on replica
+`i / b` in slot `i % b`. -/
+theorem batch_place_of_index (xs : List α) (D i : Nat) (hD : 1 ≤ D) (hdvd : D ∣ xs.length)
+    (hi : i < xs.length) :
+    (deviceSlice (batch xs D) (placeOf (xs.length / D) i).1)[(placeOf (xs.length / D) i).2]? = xs[i]? := by
+  have hne : xs ≠ [] := by intro h; subst h; simp at hi
+  obtain ⟨b, hb, hl⟩ := exists_width xs D hdvd hne
+  have hq : xs.length / D = b := by rw [hl, Nat.mul_div_cancel_left _ hD]
+  have hdlt : i / b < D := by
+    apply (Nat.div_lt_iff_lt_mul hb).mpr
+    rw [← hl]; exact hi
+  simp only [placeOf]
+  rw [batch_index_map xs D (i / (xs.length / D)) hD hdvd hne (by rw [hq]; exact hdlt), hq,
+    List.getElem?_take_of_lt (Nat.mod_lt _ hb), List.getElem?_drop]
+  congr 1
+  rw [Nat.mul_comm]
+  exact Nat.div_add_mod i b
+
 /-- `unbatch ∘ batch = id` (both the `b2 > 1` and the `b2 = 1` branch of `unbatch`). -/
 theorem batch_unbatch_id (xs : List α) (D : Nat) (hD : 1 ≤ D) (hdvd : D ∣ xs.length) (hne : xs ≠ []) :
     unbatch (batch xs D) = xs := by
